@@ -5,6 +5,6 @@ export GOFLAGS=-mod=mod GOPROXY=off GOSUMDB=off GOTOOLCHAIN=local
 pkg="$1"; file="$(realpath "$2")"; name="${3:-.}"
 tmp=$(mktemp -d /tmp/overlay_XXXX)
 trap 'rm -rf "$tmp"' EXIT
-target="/repo/$pkg/zz_verif_replay_test.go"
+REPO="${REPO:-/repo}"; target="$REPO/$pkg/zz_verif_replay_test.go"
 printf '{"Replace":{"%s":"%s"}}' "$target" "$file" > "$tmp/ov.json"
-cd /repo && (ulimit -v 8000000; go test -overlay "$tmp/ov.json" -vet=off -count=1 -timeout 60s -run "$name" "./$pkg" 2>&1 | tail -15)
+cd "$REPO" && (ulimit -v 8000000; go test -overlay "$tmp/ov.json" -vet=off -count=1 -timeout 60s -run "$name" "./$pkg" 2>&1 | tail -15)
